@@ -256,7 +256,7 @@ def main(tier):
         if m["valid"] and n % (2 if thorough else 10) == 0:
             for nm, rd in c07.reject_cases(m["doc"], rnd):
                 add("macro_graph", "mg%d_%s" % (n, nm), {"main.jst": b64(apidoc.render(rd)[0])})
-            for nm, blocks, fs, dirs, noread in c08.reject_cases(m["doc"]):
+            for nm, blocks, fs, dirs, noread in [rc[:5] for rc in c08.reject_cases(m["doc"])]:
                 ff = {"main.jst": b64(apidoc.render(blocks)[0])}
                 ff.update({k: b64(v) for k, v in fs.items()})
                 add("include_graph", "ig%d_%s" % (n, nm), ff, dirs=dirs)
